@@ -120,7 +120,7 @@ CHECKS = {
              'tested (np-contract-* streams), and the end-to-end statement is judged by np-e2e-* streams. Eight documented deviations of the '
              'real round trips are known findings. Generator restrictions (dbf key/length limits, no M end to end, holes inside shells, '
              'parts disjoint) are stated in the evidence.',
-        technique='Lean 4 proof (adapter logic + round trip under channel contracts) + source translator (the time-field helpers of the shapefile and GeoPandas adapters regenerated as Lean over tagged values and proved equal to the model) + differential correspondence with recording stand-ins + contract/end-to-end tests on the real libraries',
+        technique='Lean 4 proof (adapter logic + round trip under channel contracts) + source translator (to_shapefile, from_shapefile, to_geopandas, from_geopandas and the KML exporters regenerated as Lean over tagged values, third-party calls read as appends to the channel records, and proved equal to the model adapters) + differential correspondence with recording stand-ins + contract/end-to-end tests on the real libraries',
         design='§6 C20'),
     'C03': dict(
         text='Lean 4 theorems (real-number instance of the formulas executed as binary64): every un-rounded vertex generated for circles, '
